@@ -1,4 +1,5 @@
 import Ivg.Lemmas.Decoder2
+import Ivg.Lemmas.RasterBound
 import Ivg.Gen.Tie.DrawOps
 import Ivg.Gen.Tie.DecodeErrors
 import Ivg.Gen.Tie.Magic
@@ -117,6 +118,25 @@ example : (decode [] exIcon).1 ≠ [] := by decide +kernel
 set_option maxRecDepth 100000 in
 example : (decode [] [0x89, 0x49, 0x56, 0x47, 0x00, 0x01, 0x02]).1.length + 4 = 7 := by decide +kernel
 
+/-! ## rasteriser activity behind the decoder -/
+
+/-- Clause "(so work and rasteriser activity are linear in input length, at most four curve segments
+    per drawing operation)": a Renderer (float instance, the real arc conversion `arcF32`) in ANY state
+    makes at most four calls on its rasteriser per Destination call — an arc: at most four cubics
+    (C06, `arc_at_most_four`, for all operands incl. NaN/Inf); `StartPath`: Reset + MoveTo; close-and-
+    move and end of path: two; any other drawing call: one; styling calls: none. -/
+theorem rasteriser_ops_per_call (z : Ren.Renderer Num.F32 Num.F64) (posInf : Num.F32) (c : Call Num.F32) :
+    (z.step Ren.arcF32 posInf c).2.length ≤ 4 := RasterBound.step_ops_le_four z posInf c
+
+/-- … hence decoding ANY byte string into a Renderer makes at most `4 · (len(src) − 4)` rasteriser
+    calls in total (with `calls_linear`). -/
+theorem rasteriser_activity_linear (opts : List DecodeOption) (src : Bytes) (z : Ren.Renderer Num.F32 Num.F64)
+    (posInf : Num.F32) (h : (decode opts src).1 ≠ []) :
+    (z.run Ren.arcF32 posInf (decode opts src).1).2.length + 16 ≤ 4 * src.length := by
+  have h1 := RasterBound.run_ops_le posInf (decode opts src).1 z
+  have h2 := calls_linear opts src h
+  omega
+
 /-! ## nothing before the metadata is valid; Reset first and only once -/
 
 /-- Clause "nothing is delivered unless the magic and every metadata chunk were valid; the first
@@ -183,10 +203,8 @@ example : (decode [] (exIcon.take 22)).1.length = 3 ∧ (decode [] (exIcon.take 
 /-!
 ## Not proved in this file
 
-* "at most four curve segments per drawing operation" is a statement about the renderer's arc
-  conversion (`Ivg/Model/Arc.lean`, `Renderer.lean`), not about the decoder model; it is not
-  addressed here.  What is proved is the decoder side of the linearity claim: the number of
-  Destination calls is at most `len(src) - 4`.
+* "at most four curve segments per drawing operation" is `rasteriser_ops_per_call` (through C06's
+  `arc_at_most_four`); the decoder side of the linearity claim is `calls_linear`.
 * "without panicking / leave the input unmodified / either succeed or return a DecodeError" hold by
   construction of the model (total pure functions into `Option DecErr`); the statement about the Go
   code rests on the differential suite and on `Ivg.Gen.Tie.param_writes_frame`,
@@ -201,7 +219,8 @@ end Ivg.Props.C02
   Ivg.Props.C02.loop_terminates, Ivg.Props.C02.chunks_terminate, Ivg.Props.C02.loop_unfold,
   Ivg.Props.C02.instruction_consumes, Ivg.Props.C02.chunk_consumes,
   Ivg.Props.C02.instruction_calls_le_consumed, Ivg.Props.C02.failing_instruction_calls_le,
-  Ivg.Props.C02.calls_linear, Ivg.Props.C02.no_early_delivery,
+  Ivg.Props.C02.calls_linear, Ivg.Props.C02.rasteriser_ops_per_call, Ivg.Props.C02.rasteriser_activity_linear,
+  Ivg.Props.C02.no_early_delivery,
   Ivg.Props.C02.invalid_metadata_delivers_nothing, Ivg.Props.C02.valid_metadata_delivers_reset,
   Ivg.Props.C02.instruction_stable, Ivg.Props.C02.failing_instruction_prefix,
   Ivg.Props.C02.prefix_monotone,
